@@ -127,7 +127,74 @@ def gen_emit_on(rng):
     return {"ops": ops}
 
 
+def gen_reentrant(rng):
+    """graph edits made from INSIDE a consumer callback while an element is being delivered: a reactive sink under a
+    node with several children edits that node's (or its parent's) downstream set; the untouched siblings must still
+    get the element, the emit must not fail, and the following emits follow the new topology"""
+    ops = [["new", "pipe", []]]
+    kinds = ["pipe"]
+    parent = 0
+    if rng.random() < 0.4:
+        ops.append(["new", "pipe", [0]])
+        kinds.append("pipe")
+        if rng.random() < 0.5:
+            ops.append(["new", "sink", [0]])
+            kinds.append("sink")
+        parent = 1
+    nchild = rng.choice([2, 3, 3, 4])
+    rpos = rng.randrange(nchild)
+    children = []
+    rs = None
+    for j in range(nchild):
+        k = "rsink" if j == rpos else rng.choice(["sink", "sink", "pipe"])
+        ops.append(["new", k, [parent]])
+        kinds.append(k)
+        i = len(kinds) - 1
+        children.append(i)
+        if k == "rsink":
+            rs = i
+        if k == "pipe":
+            ops.append(["new", "sink", [i]])
+            kinds.append("sink")
+    # a detached branch that a reaction may connect
+    ops.append(["new", "pipe", []])
+    kinds.append("pipe")
+    spare = len(kinds) - 1
+    ops.append(["new", "sink", [spare]])
+    kinds.append("sink")
+    v = 0
+    for _ in range(rng.choice([0, 1, 2])):
+        v += 1
+        ops.append(["emit", 0, v])
+    sibs = [c for c in children if c != rs]
+    for _round in range(rng.choice([1, 1, 2])):
+        choice = rng.random()
+        if choice < 0.35:
+            ed = ["destroy", rs]
+        elif choice < 0.65 and sibs:
+            ed = ["disconnect", parent, rng.choice(sibs)]
+            sibs.remove(ed[2])
+        elif choice < 0.85 and spare is not None:
+            ed = ["connect", parent, spare]
+            spare = None
+        elif sibs:
+            ed = ["destroy", rng.choice(sibs)]
+            sibs.remove(ed[1])
+        else:
+            ed = ["destroy", rs]
+        v += 1
+        ops.append(["remit", 0, v, rs, ed])
+        for _ in range(rng.choice([1, 2])):
+            v += 1
+            ops.append(["emit", 0, v])
+        if ed == ["destroy", rs]:
+            break
+    return {"ops": ops}
+
+
 def gen(rng, tier):
+    if rng.random() < 0.12:
+        return gen_reentrant(rng)
     if rng.random() < 0.2:
         return gen_backlog(rng)
     if rng.random() < 0.1:
@@ -246,6 +313,28 @@ def oracle(case, obs):
             ok = s >= 0 and d < len(cur) and ((d in cur[s][2]) or (s < len(prev) and prev[s][0] and d in prev[s][2]))
             if not ok:
                 out.append(("C15", "C15/delivery-off-edge", "step %d: %d delivered to %d, not a current edge" % (step, s, d)))
+        if op[0] == "remit":
+            if o["raised"]:
+                out.append(("C15", "C15/reentrant-edit/emit-raises", "step %d (%s): the emit raised %s: an edit made from inside a consumer callback broke the delivery in progress" % (step, op, o["raised"])))
+                return out
+            if o.get("edit_raised"):
+                out.append(("C15", "C15/reentrant-edit/edit-raises", "step %d (%s): the edit made inside the callback raised %s" % (step, op, o["edit_raised"])))
+                return out
+            # every node that forwards what it gets (the emitting node, pipes) hands the element to each child whose
+            # edge existed before AND after the step (the untouched edges), once per time it received it
+            recv = {}
+            for (s, d, x) in o["deliv"]:
+                recv[d] = recv.get(d, 0) + 1
+            recv[op[1]] = recv.get(op[1], 0) + 1
+            for p_, cnt in recv.items():
+                if p_ >= len(prev) or not prev[p_][0] or kinds[p_] != "pipe":
+                    continue
+                for d in prev[p_][2]:
+                    if d in links[p_][2] and links[d][0]:
+                        got_n = sum(1 for (s, d2, x) in o["deliv"] if s == p_ and d2 == d)
+                        if got_n != cnt:
+                            out.append(("C15", "C15/reentrant-edit/sibling-lost-element", "step %d (%s): node %d received the element %d time(s) but handed it to its untouched child %d %d time(s)" % (step, op, p_, cnt, d, got_n)))
+                            return out
         if op[0] == "emit" and not o["raised"]:
             n = op[1]
             got = [d for (s, d, x) in o["deliv"] if s == n]
@@ -361,7 +450,7 @@ def run(prop, tier, seed, replay=None):
             break
     # (combine_latest with an explicit emit_on is not in the Coq topology model: oracle only)
     cos_all = cos
-    cos = [(c, o) for (c, o) in cos_all if not any(op[0] == "new" and op[1] in ("combine_on", "combine_on0") for op in c["ops"])]
+    cos = [(c, o) for (c, o) in cos_all if not any((op[0] == "new" and op[1] in ("combine_on", "combine_on0", "rsink")) or op[0] == "remit" for op in c["ops"])]
     mism, errors = correspondence("C15", cos)
     for p, o in errors:
         out.violation("C15/correspondence-error", "coqc failed: %s" % o[-300:], {"file": p}, no_input=True)
@@ -371,7 +460,8 @@ def run(prop, tier, seed, replay=None):
     if not proof["ok"]:
         out.violation("C15/proof/%s" % proof["failing"], "proof obligation no longer checks: %s" % proof["failing"],
                       {"theorem_or_file": proof["failing"], "log": proof["log"][-2000:]}, no_input=True)
-    cov = {"evaluations": len(cos_all), "distinct_nontrivial": len(nontriv), "cases_with_emit_on_combine": len(cos_all) - len(cos),
+    cov = {"evaluations": len(cos_all), "distinct_nontrivial": len(nontriv), "cases_oracle_only(emit_on combine / re-entrant edits)": len(cos_all) - len(cos),
+           "cases_with_reentrant_edit": sum(1 for (c, o) in cos_all if any(op[0] == "remit" for op in c["ops"])),
            "rule": "random histories of node creation, emit, connect, disconnect (incl. non-edges), destroy and drop-reference (+ forced gc) over pipe/sink/zip/combine_latest nodes, no parallel edges, edits before and after data; non-trivial = at least one edit and one delivery",
            "op_histogram": hist, "traces_validated_against_impl": len(cos) - len(mism), "disagreements_checked": len(mism),
            "samples": [cos[0][0]] if cos else []}
